@@ -1,6 +1,7 @@
 #!/bin/bash
 # Soak: every quick check at several stripe origins; prints one line per check and any VIOLATION / TOOL-ERROR.
 # usage: ./sweep.sh "<seed list>" [ids...]
+export VERIF_EVIDENCE_DIR=build/evidence-scratch   # evidence/ only ever holds runs of the registered commands on the unchanged tree
 seeds=${1:-"1000001 2000001 3000001"}; shift
 ids=${@:-"C01 C02 C03 C04 C05 C06 C07 C08 C09 C10 C11 C12 C13 C14 C15 C16 C17 C18 C19 C20"}
 make -f build.mk FLAVOUR=asan -j16 ${VERIF_REPO:+REPO=$VERIF_REPO} >/dev/null 2>&1 || { echo BUILD-FAILED; exit 2; }
